@@ -15,7 +15,7 @@ def bits (x : Union) (ss : List Text) : String :=
 
 /--
 * `undox <text>` / `undoxuu <text>` → `ok <text>` | `crash ValueError`
-* `translate <text>` → `ok <text>` | `err parse <offset>` | `err nonxml <code>` | `crash <what>`
+* `translate <text>` → `ok <text>` | `err parse` | `err nonxml <code>` | `crash <what>`
 * `read <text>` → `ok <tree>` | `err <kind>`
 * `match <pattern text> <texts>` → `ok <bits>` (one `0`/`1` per text) | `err <kind>`
 -/
@@ -30,7 +30,7 @@ def handle : List String → Option String
     let t ← Text.dec t
     some (match translate Gen.Xsd.xsdLiteral Gen.Xsd.xsdRange t with
       | .ok r => "ok " ++ Text.enc r
-      | .parseErr e => "err parse " ++ toString e.pos
+      | .parseErr _ => "err parse"
       | .nonXml c => "err nonxml " ++ toString c
       | .crashParse _ => "crash parse"
       | .crashFormattedValue => "crash formatted-value")
